@@ -144,15 +144,31 @@ Definition step_ok (c : cfg) (st : step) : Prop :=
   | _ => True
   end.
 
+Lemma solve_S c hints f s q last acc :
+  solve c hints (S f) s q last acc =
+  match q with
+  | [] => (s, acc, q)
+  | x :: q' =>
+      if Nat.eqb (nget (q_uid x) last) (length q) then (s, acc, q)
+      else
+        let p := q_pod x in
+        match try_schedule c (q_exempt x) (lget (p_key p) hints) (relax_fuel p) s p with
+        | (_, TErr, _) => let q'' := q' ++ [x] in solve c hints f s q'' ((q_uid x, length q'') :: last) acc
+        | (s', t, p') => solve c hints f s' q' last (acc ++ [mkStep s (q_exempt x) p' t])
+        end
+  end.
+Proof. reflexivity. Qed.
+
 Lemma solve_steps_ok c hints fuel : forall s q last acc s' steps rest,
   Forall (step_ok c) acc -> solve c hints fuel s q last acc = (s', steps, rest) -> Forall (step_ok c) steps.
 Proof.
-  induction fuel as [|f IH]; intros s q last acc s' steps rest Hacc H; simpl in H; [injection H as <- <- <-; exact Hacc|].
+  induction fuel as [|f IH]; intros s q last acc s' steps rest Hacc H; [simpl in H; injection H as <- <- <-; exact Hacc|].
+  rewrite solve_S in H.
   destruct q as [|x q']; [injection H as <- <- <-; exact Hacc|].
-  destruct (Nat.eqb (nget (q_uid x) last) (length (x :: q'))); [injection H as <- <- <-; exact Hacc|].
+  destruct (Nat.eqb (nget (q_uid x) last) (length (x :: q'))); [injection H as <- <- <-; exact Hacc|]. cbv zeta in H.
   destruct (try_schedule c (q_exempt x) (lget (p_key (q_pod x)) hints) (relax_fuel (q_pod x)) s (q_pod x)) as [[s1 t] p'] eqn:T.
   destruct t.
-  - apply (IH _ _ _ _ _ _ _ (Forall_app.2 (conj Hacc (Forall_cons _ I (Forall_nil _)))) H).
+  - refine (IH _ _ _ _ _ _ _ _ H). apply Forall_app. split; [exact Hacc|]. constructor; [exact I|constructor].
   - refine (IH _ _ _ _ _ _ _ _ H). apply Forall_app. split; [exact Hacc|]. constructor; [|constructor].
     unfold step_ok. cbn [st_target st_before st_exempt st_pod]. apply (try_schedule_in _ _ _ _ _ _ _ _ _ T).
   - refine (IH _ _ _ _ _ _ _ _ H). apply Forall_app. split; [exact Hacc|]. constructor; [|constructor].
@@ -203,9 +219,10 @@ Lemma solve_targets_active c hints nodes fuel : forall s q last acc s' steps res
   solve c hints fuel s q last acc = (s', steps, rest) ->
   Forall (fun st => forall n, st_target st = TEx n -> exists sn, List.In sn nodes /\ sn_name sn = n /\ sn_marked_for_deletion sn = false) steps.
 Proof.
-  induction fuel as [|f IH]; intros s q last acc s' steps rest Hs Hacc H; simpl in H; [injection H as <- <- <-; exact Hacc|].
+  induction fuel as [|f IH]; intros s q last acc s' steps rest Hs Hacc H; [simpl in H; injection H as <- <- <-; exact Hacc|].
+  rewrite solve_S in H.
   destruct q as [|x q']; [injection H as <- <- <-; exact Hacc|].
-  destruct (Nat.eqb (nget (q_uid x) last) (length (x :: q'))); [injection H as <- <- <-; exact Hacc|].
+  destruct (Nat.eqb (nget (q_uid x) last) (length (x :: q'))); [injection H as <- <- <-; exact Hacc|]. cbv zeta in H.
   destruct (try_schedule c (q_exempt x) (lget (p_key (q_pod x)) hints) (relax_fuel (q_pod x)) s (q_pod x)) as [[s1 t] p'] eqn:T.
   pose proof (try_schedule_names _ _ _ _ _ _ _ _ _ T) as [N1 N2].
   assert (Hs1 : names_from nodes s1) by (intros n Hn; rewrite N1 in Hn; apply Hs, Hn).
@@ -223,7 +240,7 @@ Proof.
   unfold pass. intros H st n Hin Ht.
   assert (H0 : names_from nodes (init_sched e daemons nodes tmpls)).
   { intros m Hm. unfold init_sched in Hm. cbn [s_ex] in Hm. rewrite map_map in Hm. cbn [ex_name] in Hm.
-    apply in_map_iff in Hm as (sn & <- & Hsn). apply in_sort_sn in Hsn. unfold active in Hsn. apply filter_In in Hsn as [Hn Hm].
+    apply in_map_iff in Hm as (sn & <- & Hsn). apply (proj1 (in_sort_sn _ _)) in Hsn. unfold active in Hsn. apply filter_In in Hsn as [Hn Hm].
     exists sn. repeat split; [exact Hn|]. destruct (sn_marked_for_deletion sn); [discriminate|reflexivity]. }
   pose proof (solve_targets_active _ _ _ _ _ _ _ _ _ _ _ H0 (Forall_nil _) H) as HF.
   rewrite Forall_forall in HF. apply (HF st Hin n Ht).
@@ -310,3 +327,675 @@ Qed.
 Lemma reconcile_runs_iff_synced s created :
   p_passes (cstep s (CReconcile created)) = (if synced (p_map s) then S (p_passes s) else p_passes s).
 Proof. simpl. destruct (synced (p_map s)); reflexivity. Qed.
+
+(* ================================================================== the in-flight node re-admits the pods of its claim *)
+
+(* ---- requirement algebra: "satisfied when undefined" is closed under intersection ---- *)
+Lemma filter_all_true {A} (f : A -> bool) l : (forall x, f x = true) -> filter f l = l.
+Proof. intros H. induction l as [|x l IH]; simpl; [reflexivity|]. rewrite H, IH. reflexivity. Qed.
+
+Lemma sat_undefined_shape r : sat_undefined r = true ->
+  gte r = None /\ lte r = None /\ (if compl r then vals r <> [] else vals r = []).
+Proof.
+  unfold sat_undefined, operator, rlen. destruct (compl r).
+  - destruct (vals r) as [|x l] eqn:V.
+    + change (max64 - Z.of_nat (length (@nil string)) <? max64) with false. discriminate.
+    + destruct (max64 - Z.of_nat (length (x :: l)) <? max64); [|discriminate].
+      destruct (gte r), (lte r); try discriminate. intros _. repeat split; discriminate.
+  - destruct (vals r) as [|x l] eqn:V.
+    + simpl. destruct (gte r), (lte r); try discriminate. intros _. repeat split; reflexivity.
+    + replace (0 <? Z.of_nat (length (x :: l))) with true by (symmetry; apply Z.ltb_lt; simpl length; lia). discriminate.
+Qed.
+
+Lemma sat_undefined_intro (c : bool) (vs : list string) (mv : option Z) : (if c then vs <> [] else vs = []) -> sat_undefined (mkReq c vs None None mv) = true.
+Proof.
+  unfold sat_undefined, operator, rlen. cbn [compl vals gte lte]. destruct c.
+  - intros H. destruct vs as [|x l]; [congruence|].
+    replace (max64 - Z.of_nat (length (x :: l)) <? max64) with true by (symmetry; apply Z.ltb_lt; simpl length; lia). reflexivity.
+  - intros ->. reflexivity.
+Qed.
+
+Lemma sat_undefined_inter a b : sat_undefined a = true -> sat_undefined b = true -> sat_undefined (intersection a b) = true.
+Proof.
+  intros Ha Hb. destruct (sat_undefined_shape a Ha) as (Ga & La & Va). destruct (sat_undefined_shape b Hb) as (Gb & Lb & Vb).
+  unfold intersection. rewrite Ga, La, Gb, Lb. cbn [max_opt min_opt].
+  rewrite filter_all_true by (intros; reflexivity).
+  destruct (compl a), (compl b); cbn [andb]; apply sat_undefined_intro.
+  - unfold sunion. destruct (vals a); [congruence|discriminate].
+  - rewrite Vb. reflexivity.
+  - rewrite Va. reflexivity.
+  - rewrite Va. reflexivity.
+Qed.
+
+(* ---- the label side of ExistingNode.CanAdd ---- *)
+(* [lab]: the labels the launched node carries *)
+Definition label_ok (lab : string -> option string) (k : string) (x : req) : Prop :=
+  match lab k with Some v => has x v = true | None => sat_undefined x = true end.
+
+Definition reqs_inv (lab : string -> option string) (acc : reqs) : Prop :=
+  wf_reqs acc /\ nodup_keys acc /\
+  (forall k x, find k acc = Some x -> label_ok lab k x) /\
+  (forall k v, lab k = Some v -> has_key acc k = true).
+
+Definition pod_lab_ok (lab : string -> option string) (pr : reqs) : Prop :=
+  nodup_keys pr /\ forall k q, List.In (k, q) pr -> wf q /\ label_ok lab k q.
+
+Lemma compat_ok lab acc pr : reqs_inv lab acc -> pod_lab_ok lab pr -> compatible [] acc pr = true.
+Proof.
+  intros (Hw & Hn & Hl & Hk) [Pn Pq]. unfold compatible. apply andb_true_intro. split.
+  - apply forallb_forall. intros [k rb] Hin. destruct (Pq k rb Hin) as [_ Hlab]. unfold label_ok in Hlab. cbn [mem existsb orb].
+    destruct (lab k) as [v|] eqn:L; [rewrite (Hk k v L); reflexivity|rewrite Hlab; apply orb_true_r].
+  - unfold intersects. apply forallb_forall. intros [k ex] Hin.
+    destruct (find k pr) as [inc|] eqn:F; [|reflexivity].
+    pose proof (In_find k ex acc Hn Hin) as Fa. pose proof (Hl k ex Fa) as Lex.
+    destruct (Pq k inc (find_In _ _ _ F)) as [Winc Linc]. unfold label_ok in Lex, Linc.
+    destruct (lab k) as [v|].
+    + apply orb_true_intro. left. apply (has_intersection_true_iff ex inc (Hw k ex Hin) Winc). exists v. split; assumption.
+    + rewrite Lex, Linc. apply orb_true_r.
+Qed.
+
+Lemma has_key_set k r m k0 : has_key m k0 = true -> has_key (set k r m) k0 = true.
+Proof.
+  unfold has_key. destruct (String.eqb_spec k0 k) as [->|Hne]; [rewrite find_set_same; reflexivity|rewrite find_set_other by exact Hne; tauto].
+Qed.
+
+Lemma add1_reqs_inv lab acc k r : reqs_inv lab acc -> wf r -> label_ok lab k r -> reqs_inv lab (add1 acc (k, r)).
+Proof.
+  intros (Hw & Hn & Hl & Hk) Wr Lr.
+  destruct (add1_inv acc (k, r) Wr (conj Hw Hn)) as [Hw' Hn']. split; [exact Hw'|]. split; [exact Hn'|]. split.
+  - intros k0 x Hf. unfold add1 in Hf. destruct (find k acc) as [ex|] eqn:F.
+    + destruct (String.eqb_spec k0 k) as [->|Hne].
+      * rewrite find_set_same in Hf. injection Hf as <-. pose proof (Hl k ex F) as Lex. unfold label_ok in *.
+        destruct (lab k) as [v|]; [rewrite has_intersection_admits, Lr, Lex; reflexivity|apply sat_undefined_inter; assumption].
+      * rewrite find_set_other in Hf by exact Hne. apply (Hl k0 x Hf).
+    + destruct (String.eqb_spec k0 k) as [->|Hne].
+      * rewrite find_set_same in Hf. injection Hf as <-. exact Lr.
+      * rewrite find_set_other in Hf by exact Hne. apply (Hl k0 x Hf).
+  - intros k0 v L. unfold add1. destruct (find k acc); apply has_key_set, (Hk k0 v L).
+Qed.
+
+Lemma add_reqs_inv lab pr : forall acc, reqs_inv lab acc -> (forall k q, List.In (k, q) pr -> wf q /\ label_ok lab k q) ->
+  reqs_inv lab (add acc pr).
+Proof.
+  unfold add. induction pr as [|[k r] pr IH]; intros acc Hacc Hpr; simpl; [exact Hacc|].
+  apply IH; [|intros k0 q Hin; apply Hpr; right; exact Hin].
+  destruct (Hpr k r (or_introl eq_refl)) as [Wr Lr]. apply add1_reqs_inv; assumption.
+Qed.
+
+(* ---- the resource side ---- *)
+Definition nonneg (l : rl) : Prop := forall k v, List.In (k, v) l -> 0 <= v.
+
+Lemma rget_nodup k v (l : rl) : NoDup (map fst l) -> List.In (k, v) l -> rget k l = v.
+Proof.
+  induction l as [|[k' v'] l IH]; intros Hn Hin; [destruct Hin|]. simpl in *. inversion Hn as [|? ? Hx Hl]; subst.
+  destruct Hin as [E|Hin].
+  - injection E as -> ->. rewrite String.eqb_refl. reflexivity.
+  - destruct (String.eqb_spec k k') as [->|Hne]; [|apply IH; assumption].
+    exfalso. apply Hx. apply in_map_iff. exists (k', v). split; [reflexivity|exact Hin].
+Qed.
+
+Lemma rget_nonneg k (l : rl) : nonneg l -> 0 <= rget k l.
+Proof. intros H. destruct (rget_member k l) as [->|(v & Hin & ->)]; [lia|apply (H k v Hin)]. Qed.
+
+Lemma rsum_nonneg (ls : list rl) k : Forall nonneg ls -> 0 <= rsum ls k.
+Proof.
+  unfold rsum. induction ls as [|l ls IH]; intros H; simpl; [lia|]. inversion H; subst.
+  pose proof (rget_nonneg k l H2). specialize (IH H3). lia.
+Qed.
+
+Lemma radd1_keys (l : rl) k v : NoDup (map fst l) -> NoDup (map fst (radd1 l k v)).
+Proof.
+  induction l as [|[k' v'] l IH]; intros Hn; simpl; [repeat constructor; intros []|].
+  inversion Hn as [|? ? Hx Hl]; subst. destruct (String.eqb_spec k k') as [->|Hne]; simpl; [constructor; assumption|].
+  constructor; [|apply IH, Hl]. intros Hin. apply Hx.
+  clear -Hin Hne. induction l as [|[k2 v2] l IH]; simpl in *.
+  - destruct Hin as [E|[]]. congruence.
+  - destruct (String.eqb_spec k k2) as [->|Hn2]; simpl in Hin; [exact Hin|]. destruct Hin as [E|Hin]; [left; exact E|right; apply IH, Hin].
+Qed.
+
+Lemma rsub_from_keys (dest src : rl) : NoDup (map fst dest) -> NoDup (map fst (rsub_from dest src)).
+Proof.
+  unfold rsub_from. revert dest. induction src as [|[k v] src IH]; intros dest Hn; simpl; [exact Hn|]. apply IH, radd1_keys, Hn.
+Qed.
+
+Lemma fits_intro (cand total : rl) : NoDup (map fst cand) -> NoDup (map fst total) ->
+  (forall k, 0 <= rget k total) -> (forall k, rget k cand <= rget k total) -> fits cand total = true.
+Proof.
+  intros Nc Nt H0 H1. unfold fits. apply andb_true_intro. split; apply forallb_forall; intros [k v] Hin; cbn [fst snd]; apply Z.leb_le.
+  - rewrite <- (rget_nodup k v total Nt Hin). apply H0.
+  - rewrite <- (rget_nodup k v cand Nc Hin). apply H1.
+Qed.
+
+(* ---- host ports: the pods are offered one after the other to a node whose usage is [u] ---- *)
+Fixpoint ports_seq (u : usage) (ps : list pod) : Prop :=
+  match ps with
+  | [] => True
+  | p :: t => conflicts u (p_key p) (p_ports p) = false /\ ports_seq (uset u (p_key p) (p_ports p)) t
+  end.
+
+(* what the theorem asks of a pod: a well-formed spec, no preferences (the property's restriction), non-negative requests *)
+Definition pod_ok (p : pod) : Prop := pod_wf p /\ p_pref p = [] /\ nonneg (p_requests p).
+
+(* the general statement: a node [e] accepts the pods one after the other *)
+Lemma ex_exec_all_placed all lab : forall ps e,
+  (forall p, List.In p ps -> tolerates_all (en_taints e) (p_tols p) = true) ->
+  ports_seq (en_ports e) ps ->
+  NoDup (map fst (en_remaining e)) ->
+  (forall k, rsum (map p_requests ps) k <= rget k (en_remaining e)) ->
+  Forall (fun p => NoDup (map fst (p_requests p)) /\ nonneg (p_requests p)) ps ->
+  reqs_inv lab (en_reqs e) ->
+  (forall p, List.In p ps -> pod_lab_ok lab (pod_reqs all p)) ->
+  en_pods (ex_exec all e ps) = en_pods e ++ ps.
+Proof.
+  induction ps as [|p ps IH]; intros e HT HP HN HR HW HL HQ; simpl; [rewrite app_nil_r; reflexivity|].
+  destruct HP as [HP1 HP2]. inversion HW as [|? ? [Wp Np] HW']; subst.
+  assert (Hsum : forall k, 0 <= rsum (map p_requests ps) k).
+  { intros k. apply rsum_nonneg. clear -HW'. induction HW' as [|q l [_ Hq] _ IHl]; simpl; constructor; assumption. }
+  assert (Hfit : fits (p_requests p) (en_remaining e) = true).
+  { apply fits_intro; try assumption.
+    - intros k. specialize (HR k). cbn [map] in HR. unfold rsum in HR. cbn [fold_right] in HR. fold (rsum (map p_requests ps) k) in HR.
+      pose proof (rget_nonneg k _ Np). specialize (Hsum k). lia.
+    - intros k. specialize (HR k). cbn [map] in HR. unfold rsum in HR. cbn [fold_right] in HR. fold (rsum (map p_requests ps) k) in HR.
+      specialize (Hsum k). lia. }
+  assert (Hc : compatible [] (en_reqs e) (pod_reqs all p) = true) by (apply (compat_ok lab); [exact HL|apply HQ; left; reflexivity]).
+  unfold ex_step, ex_can_add. rewrite (HT p (or_introl eq_refl)), HP1, Hfit, Hc. cbn [negb fst].
+  rewrite IH.
+  - unfold ex_add. cbn [en_pods]. rewrite <- app_assoc. reflexivity.
+  - intros q Hq. unfold ex_add. cbn [en_taints]. apply HT. right. exact Hq.
+  - unfold ex_add. cbn [en_ports]. exact HP2.
+  - unfold ex_add. cbn [en_remaining]. apply rsub_from_keys, HN.
+  - intros k. unfold ex_add. cbn [en_remaining]. rewrite rget_rsub_from by exact Wp.
+    specialize (HR k). cbn [map] in HR. unfold rsum in HR. cbn [fold_right] in HR. fold (rsum (map p_requests ps) k) in HR. lia.
+  - exact HW'.
+  - unfold ex_add. cbn [en_reqs]. apply add_reqs_inv; [exact HL|]. destruct (HQ p (or_introl eq_refl)) as [_ H]. exact H.
+  - intros q Hq. apply HQ. right. exact Hq.
+Qed.
+
+(* ---- what a claim built by any sequence of CanAdd / Add attempts guarantees about its pods ---- *)
+Definition claim_inv (all : bool) (n0 n : nclaim) : Prop :=
+  nc_taints n = nc_taints n0 /\
+  forall p, List.In p (nc_pods n) ->
+    tolerates_all (nc_taints n0) (p_tols p) = true /\
+    forall k q, List.In (k, q) (pod_reqs all p) -> forall v, has (get (nc_reqs n) k) v = true -> has q v = true.
+
+Lemma claim_inv_step wk cat all rx n0 n p : claim_inv all n0 n -> claim_inv all n0 (fst (nc_step wk cat all rx n p)).
+Proof.
+  intros [HT HP]. unfold nc_step. destruct (nc_can_add wk cat all rx n p) as [[r its]|e] eqn:C; cbn [fst]; [|split; assumption].
+  destruct (nc_can_add_ok _ _ _ _ _ _ _ _ C) as (Htol & _ & HR & _).
+  unfold nc_add. split; cbn [nc_taints nc_pods nc_reqs]; [exact HT|].
+  intros q Hq. apply in_app_or in Hq as [Hq|[<-|[]]].
+  - destruct (HP q Hq) as [H1 H2]. split; [exact H1|]. intros k x Hin v Hv. apply (H2 k x Hin v).
+    rewrite HR in Hv. unfold step_reqs in Hv. apply add_narrows in Hv. exact Hv.
+  - split; [rewrite <- HT; exact Htol|]. intros k x Hin v Hv. rewrite HR in Hv. unfold step_reqs in Hv.
+    apply (add_within _ _ _ _ _ Hin Hv).
+Qed.
+
+Lemma claim_inv_exec wk cat all n0 ops : forall n, claim_inv all n0 n -> claim_inv all n0 (nc_exec wk cat all n ops).
+Proof.
+  induction ops as [|[p rx] ops IH]; intros n H; simpl; [exact H|]. apply IH, claim_inv_step, H.
+Qed.
+
+(* ---- host ports of the pods of one claim never clash pairwise ---- *)
+Definition ports_of (ps : list pod) : usage := fold_left (fun u p => uset u (p_key p) (p_ports p)) ps [].
+Definition usub (u' u : usage) : Prop := forall e, List.In e u' -> List.In e u.
+
+Lemma uset_new u w ps : List.In (w, ps) (uset u w ps).
+Proof.
+  induction u as [|[k q] u IH]; simpl; [left; reflexivity|].
+  destruct (String.eqb_spec w k) as [->|Hn]; [left; reflexivity|right; exact IH].
+Qed.
+Lemma uset_keep u w ps e : List.In e u -> fst e <> w -> List.In e (uset u w ps).
+Proof.
+  induction u as [|[k q] u IH]; intros Hin Hne; [destruct Hin|]. simpl.
+  destruct (String.eqb_spec w k) as [->|Hn].
+  - destruct Hin as [<-|Hin]; [cbn [fst] in Hne; congruence|right; exact Hin].
+  - destruct Hin as [<-|Hin]; [left; reflexivity|right; apply IH; assumption].
+Qed.
+Lemma uset_in u w ps e : NoDup (map fst u) -> List.In e (uset u w ps) -> e = (w, ps) \/ (List.In e u /\ fst e <> w).
+Proof.
+  induction u as [|[k q] u IH]; intros Hn Hin; simpl in Hin; [destruct Hin as [<-|[]]; left; reflexivity|].
+  inversion Hn as [|? ? Hx Hl]; subst. destruct (String.eqb_spec w k) as [->|Hne].
+  - destruct Hin as [<-|Hin]; [left; reflexivity|]. right. split; [right; exact Hin|].
+    intros E. apply Hx. apply in_map_iff. exists e. split; [exact E|exact Hin].
+  - destruct Hin as [<-|Hin]; [right; split; [left; reflexivity|cbn [fst]; congruence]|].
+    destruct (IH Hl Hin) as [->|[H1 H2]]; [left; reflexivity|right; split; [right; exact H1|exact H2]].
+Qed.
+Lemma uset_keys u w ps : NoDup (map fst u) -> NoDup (map fst (uset u w ps)).
+Proof.
+  induction u as [|[k q] u IH]; intros Hn; simpl; [repeat constructor; intros []|].
+  inversion Hn as [|? ? Hx Hl]; subst. destruct (String.eqb_spec w k) as [->|Hne]; simpl; [constructor; assumption|].
+  constructor; [|apply IH, Hl]. intros Hin. apply Hx. apply in_map_iff in Hin as (e & He & Hin).
+  destruct (uset_in u w ps e Hl Hin) as [->|[H1 _]]; [cbn [fst] in He; congruence|].
+  apply in_map_iff. exists e. split; assumption.
+Qed.
+
+Lemma usub_uset u' u w ps : NoDup (map fst u') -> usub u' u -> usub (uset u' w ps) (uset u w ps).
+Proof.
+  intros Hn Hs e Hin. destruct (uset_in u' w ps e Hn Hin) as [->|[H1 H2]]; [apply uset_new|apply uset_keep; [apply Hs, H1|exact H2]].
+Qed.
+
+Lemma conflicts_up u' u who ports : usub u' u -> conflicts u' who ports = true -> conflicts u who ports = true.
+Proof.
+  intros Hs E. unfold conflicts in *.
+  apply existsb_exists in E as (n & Hn & E). apply existsb_exists in E as (e & He & E).
+  apply existsb_exists. exists n. split; [exact Hn|]. apply existsb_exists. exists e. split; [apply Hs, He|exact E].
+Qed.
+Lemma conflicts_mono u' u who ports : usub u' u -> conflicts u who ports = false -> conflicts u' who ports = false.
+Proof.
+  intros Hs H. destruct (conflicts u' who ports) eqn:E; [|reflexivity]. rewrite (conflicts_up _ _ _ _ Hs E) in H. discriminate.
+Qed.
+
+Definition ports_inv (n : nclaim) : Prop :=
+  NoDup (map fst (ports_of (nc_pods n))) /\ ports_seq [] (nc_pods n) /\
+  forall g, List.In g (nc_groups n) -> usub (ports_of (nc_pods n)) (dg_ports g).
+
+Lemma ports_of_app ps p : ports_of (ps ++ [p]) = uset (ports_of ps) (p_key p) (p_ports p).
+Proof. unfold ports_of. rewrite fold_left_app. reflexivity. Qed.
+
+Lemma ports_seq_app : forall ps u p, ports_seq u ps ->
+  conflicts (fold_left (fun u p => uset u (p_key p) (p_ports p)) ps u) (p_key p) (p_ports p) = false -> ports_seq u (ps ++ [p]).
+Proof.
+  induction ps as [|q ps IH]; intros u p H C; simpl in *; [split; [exact C|exact I]|].
+  destruct H as [H1 H2]. split; [exact H1|apply IH; assumption].
+Qed.
+
+Lemma ports_inv_step wk cat all rx n p : ports_inv n -> ports_inv (fst (nc_step wk cat all rx n p)).
+Proof.
+  intros (Hn & Hs & Hg). unfold nc_step. destruct (nc_can_add wk cat all rx n p) as [[r its]|e] eqn:C; cbn [fst]; [|repeat split; assumption].
+  destruct (nc_can_add_ok _ _ _ _ _ _ _ _ C) as (_ & _ & _ & Hne & Hits).
+  destruct its as [|name its]; [congruence|].
+  destruct (Hits name (or_introl eq_refl)) as (_ & i & g & _ & _ & Hgin & _ & Hconf & _).
+  assert (Hc : conflicts (ports_of (nc_pods n)) (p_key p) (p_ports p) = false) by (apply (conflicts_mono _ (dg_ports g)); [apply Hg, Hgin|exact Hconf]).
+  unfold nc_add, ports_inv. cbn [nc_pods nc_groups]. rewrite ports_of_app. split; [apply uset_keys, Hn|]. split.
+  - apply ports_seq_app; [exact Hs|exact Hc].
+  - intros g' Hg'. apply in_map_iff in Hg' as (g0 & <- & Hg0). cbn [dg_ports]. apply usub_uset; [exact Hn|apply Hg, Hg0].
+Qed.
+
+Lemma ports_inv_exec wk cat all ops : forall n, ports_inv n -> ports_inv (nc_exec wk cat all n ops).
+Proof. induction ops as [|[p rx] ops IH]; intros n H; simpl; [exact H|]. apply IH, ports_inv_step, H. Qed.
+
+(* ---- pod requirements are well formed ---- *)
+Lemma wf_reqs_forall (m : reqs) : wf_reqs m -> Forall (fun kr => wf (snd kr)) m.
+Proof. intros H. apply Forall_forall. intros [k r] Hin. apply (H k r Hin). Qed.
+
+Lemma pod_reqs_wf all p : pod_wf p -> p_pref p = [] -> wf_reqs (pod_reqs all p) /\ nodup_keys (pod_reqs all p).
+Proof.
+  intros [_ Wt] Hpref. unfold pod_reqs. rewrite Hpref. cbn [sort_desc fold_right].
+  assert (H0 : wf_reqs (sel_reqs (p_sel p)) /\ nodup_keys (sel_reqs (p_sel p))).
+  { unfold sel_reqs. apply add_inv; [|apply empty_inv]. apply Forall_forall. intros kr Hin. apply in_map_iff in Hin as (kv & <- & _).
+    cbn [snd]. apply wf_new_req. reflexivity. }
+  assert (H1 : wf_reqs (if all then sel_reqs (p_sel p) else sel_reqs (p_sel p)) /\ nodup_keys (if all then sel_reqs (p_sel p) else sel_reqs (p_sel p)))
+    by (destruct all; exact H0).
+  destruct (p_req p) as [|t rest] eqn:E; [exact H1|].
+  apply add_inv; [|exact H1]. apply wf_reqs_forall. unfold term_reqs.
+  apply (add_inv (map expr_req t) []); [|apply empty_inv]. apply Forall_forall. intros kr Hin. apply in_map_iff in Hin as ([[k o] vs] & <- & Hin).
+  cbn [expr_req snd]. apply wf_new_req. apply (Wt t rest eq_refl k o vs Hin).
+Qed.
+
+Lemma exec_pods_ok wk cat all : forall ops n, Forall (fun op => pod_ok (fst op)) ops ->
+  (forall z, List.In z (nc_pods n) -> pod_ok z) -> forall z, List.In z (nc_pods (nc_exec wk cat all n ops)) -> pod_ok z.
+Proof.
+  induction ops as [|[p rx] ops IH]; intros n Hops Hn z Hz; simpl in Hz; [apply Hn, Hz|].
+  inversion Hops as [|? ? Hp Hrest]; subst. cbn [fst] in Hp. apply (IH _ Hrest) in Hz; [exact Hz|].
+  intros y Hy. unfold nc_step in Hy. destruct (nc_can_add wk cat all rx n p) as [[r its]|e]; cbn [fst] in Hy; [|apply Hn, Hy].
+  unfold nc_add in Hy. cbn [nc_pods] in Hy. apply in_app_or in Hy as [Hy|[<-|[]]]; [apply Hn, Hy|exact Hp].
+Qed.
+
+(* ================================================================== the theorem *)
+(* A NodeClaim built by ANY sequence of CanAdd / Add attempts from a fresh template claim [n0]; it was launched and the
+   scheduler now sees it as the existing node [v] whose labels are [lab].  If
+     - the taints of the view are taints of the claim (state_node_view hides startup and ephemeral taints, see
+       view_taints_subset),
+     - nothing is bound to the node yet,
+     - the remaining resources of the view hold the summed requests (see view_remaining: allocatable of the launched
+       instance minus the daemon overhead),
+     - (provider-label contract) every label value is admitted by the claim's final requirement on that key, and
+     - a pod's requirement on a key the node does not carry accepts the absence of the label,
+   then the view re-admits ALL the pods the claim was created for, jointly: the next pass places them there. *)
+Theorem rerun_places_on_inflight_l wk cat all n0 ops v lab :
+  nc_pods n0 = [] -> Forall (fun op => pod_ok (fst op)) ops ->
+  let n := nc_exec wk cat all n0 ops in
+  (forall t, List.In t (en_taints v) -> List.In t (nc_taints n0)) ->
+  en_ports v = [] -> en_pods v = [] ->
+  NoDup (map fst (en_remaining v)) ->
+  (forall k, rsum (map p_requests (nc_pods n)) k <= rget k (en_remaining v)) ->
+  reqs_inv lab (en_reqs v) ->
+  (forall k val, lab k = Some val -> has (get (nc_reqs n) k) val = true) ->
+  (forall p, List.In p (nc_pods n) -> forall k q, List.In (k, q) (pod_reqs all p) -> lab k = None -> sat_undefined q = true) ->
+  en_pods (ex_exec all v (nc_pods n)) = nc_pods n.
+Proof.
+  intros Hp0 Hops n HT HP HE HN HR HL Hcontract Habsent.
+  assert (CI : claim_inv all n0 n) by (apply claim_inv_exec; split; [reflexivity|rewrite Hp0; intros p []]).
+  assert (PI : ports_inv n).
+  { apply ports_inv_exec. unfold ports_inv. rewrite Hp0. cbn. split; [constructor|]. split; [exact I|intros g _ e []]. }
+  destruct CI as [_ CP]. destruct PI as (_ & PS & _).
+  assert (Hpods : forall p, List.In p (nc_pods n) -> pod_ok p).
+  { apply exec_pods_ok; [exact Hops|]. rewrite Hp0. intros z []. }
+  rewrite <- (app_nil_l (nc_pods n)) at 2. rewrite <- HE.
+  apply (ex_exec_all_placed all lab).
+  - intros p Hp. destruct (CP p Hp) as [Htol _]. unfold tolerates_all in *. rewrite forallb_forall in *. intros t Ht. apply Htol, HT, Ht.
+  - rewrite HP. exact PS.
+  - exact HN.
+  - exact HR.
+  - apply Forall_forall. intros p Hp. destruct (Hpods p Hp) as ([Wp _] & _ & Np). split; assumption.
+  - exact HL.
+  - intros p Hp. destruct (Hpods p Hp) as (Wp & Hpref & _). destruct (pod_reqs_wf all p Wp Hpref) as [Wr Nr].
+    split; [exact Nr|]. intros k q Hin. split; [apply (Wr k q Hin)|]. unfold label_ok.
+    destruct (lab k) as [val|] eqn:L.
+    + destruct (CP p Hp) as [_ Hnar]. apply (Hnar k q Hin val). apply Hcontract, L.
+    + apply (Habsent p Hp k q Hin L).
+Qed.
+
+(* ================================================================== the four lifecycle views *)
+
+(* taints: whatever the stage, the taints the scheduler checks are taints of the NodeClaim, provided every taint the
+   Node carries is a taint of the NodeClaim or (before initialization) a startup taint or a known ephemeral taint —
+   which is what the registration controller (syncNode) and the kubelet produce *)
+Lemma view_taints_subset e s :
+  sn_claim s = true ->
+  (forall t, List.In t (sn_ntaints s) ->
+     List.In t (sn_ctaints s) \/
+     (sn_initialized s = false /\ (is_ephemeral e t = true \/ existsb (fun st => match_taint st t) (sn_startup s) = true))) ->
+  forall t, List.In t (sn_taints e s) -> List.In t (sn_ctaints s).
+Proof.
+  intros Hc Hn t. unfold sn_taints, sn_managed. rewrite Hc.
+  destruct ((negb (sn_registered s) && true) || negb (sn_node s)).
+  - destruct (negb (sn_initialized s) && true); [intros H; apply filter_In in H as [H _]; exact H|tauto].
+  - destruct (sn_initialized s) eqn:I; cbn [negb andb].
+    + intros H. destruct (Hn t H) as [H1|[H1 _]]; [exact H1|discriminate].
+    + intros H. apply filter_In in H as [H F]. destruct (Hn t H) as [H1|[_ [H1|H1]]]; [exact H1| |]; rewrite H1 in F; try discriminate.
+      rewrite orb_true_r in F. discriminate.
+Qed.
+
+Lemma view_taints_are_sn_taints e ds s : en_taints (state_node_view e ds s) = sn_taints e s.
+Proof. reflexivity. Qed.
+
+(* labels: an unregistered / NodeClaim-only node presents the NodeClaim's labels, a registered one the Node's *)
+Lemma view_labels_stage s : sn_claim s = true ->
+  sn_labels s = match sn_stage s with
+                | StClaimOnly | StUnregistered => sn_clabels s
+                | _ => sn_nlabels s
+                end.
+Proof.
+  intros Hc. unfold sn_labels, sn_stage. rewrite Hc. destruct (sn_node s); cbn [negb]; try reflexivity.
+  destruct (sn_registered s); cbn [negb]; [|reflexivity]. destruct (sn_initialized s); reflexivity.
+Qed.
+
+(* allocatable: zero-valued (or missing) entries of the node status are overridden by the NodeClaim's values *)
+Lemma rget_rset l k v k0 : rget k0 (rset l k v) = if String.eqb k0 k then v else rget k0 l.
+Proof.
+  induction l as [|[k' v'] l IH]; simpl.
+  - destruct (String.eqb k0 k); reflexivity.
+  - destruct (String.eqb_spec k k') as [->|Hn]; simpl.
+    + destruct (String.eqb_spec k0 k'); reflexivity.
+    + destruct (String.eqb_spec k0 k') as [->|Hn2]; [destruct (String.eqb_spec k' k); [congruence|reflexivity]|exact IH].
+Qed.
+
+Lemma rget_zero_override_gen k : forall claim acc, NoDup (map fst claim) ->
+  rget k (fold_left (fun acc kv => if rget (fst kv) acc =? 0 then rset acc (fst kv) (snd kv) else acc) claim acc) =
+  if existsb (String.eqb k) (map fst claim) then (if rget k acc =? 0 then rget k claim else rget k acc) else rget k acc.
+Proof.
+  induction claim as [|[k1 v1] claim IH]; intros acc Hn; simpl; [reflexivity|].
+  inversion Hn as [|? ? Hx Hl]; subst. rewrite (IH _ Hl). cbn [fst snd].
+  destruct (String.eqb_spec k k1) as [->|Hne]; cbn [orb].
+  - assert (Hnot : existsb (String.eqb k1) (map fst claim) = false).
+    { destruct (existsb (String.eqb k1) (map fst claim)) eqn:E; [|reflexivity]. exfalso. apply Hx.
+      apply existsb_exists in E as (x & Hin & E). apply String.eqb_eq in E. subst. exact Hin. }
+    rewrite Hnot. destruct (rget k1 acc =? 0) eqn:Z; [rewrite rget_rset, String.eqb_refl; reflexivity|reflexivity].
+  - assert (E : rget k (if rget k1 acc =? 0 then rset acc k1 v1 else acc) = rget k acc).
+    { destruct (rget k1 acc =? 0); [rewrite rget_rset; destruct (String.eqb_spec k k1); [congruence|reflexivity]|reflexivity]. }
+    rewrite E. reflexivity.
+Qed.
+
+Lemma rget_zero_override node claim k : NoDup (map fst claim) ->
+  rget k (zero_override node claim) = if rget k node =? 0 then rget k claim else rget k node.
+Proof.
+  intros Hn. unfold zero_override. rewrite (rget_zero_override_gen k claim node Hn).
+  destruct (existsb (String.eqb k) (map fst claim)) eqn:E; [reflexivity|].
+  destruct (rget k node =? 0) eqn:Z; [|reflexivity]. apply Z.eqb_eq in Z. rewrite Z. symmetry. apply rget_notin.
+  intros Hin. assert (X : existsb (String.eqb k) (map fst claim) = true) by (apply existsb_exists; exists k; split; [exact Hin|apply String.eqb_refl]).
+  rewrite X in E. discriminate.
+Qed.
+
+(* whatever the stage, the allocatable of an in-flight node is at least the NodeClaim's (= the launched instance's),
+   provided the Node reports, per resource, nothing / zero (not yet known) or at least that much *)
+Lemma view_alloc_ge s : sn_claim s = true -> NoDup (map fst (sn_calloc s)) ->
+  (sn_node s = true -> forall k, (sn_initialized s = false /\ rget k (sn_nalloc s) = 0) \/ rget k (sn_calloc s) <= rget k (sn_nalloc s)) ->
+  forall k, rget k (sn_calloc s) <= rget k (sn_alloc s).
+Proof.
+  intros Hc Hn Hnode k. unfold sn_alloc. rewrite Hc. destruct (sn_node s) eqn:N.
+  - destruct (sn_initialized s) eqn:I; cbn [negb andb].
+    + destruct (Hnode eq_refl k) as [[X _]|X]; [discriminate|exact X].
+    + rewrite rget_zero_override by exact Hn. destruct (Hnode eq_refl k) as [[_ X]|X].
+      * rewrite X. simpl. lia.
+      * destruct (rget k (sn_nalloc s) =? 0); lia.
+  - assert (sn_initialized s = false) as -> by (unfold sn_initialized, sn_managed; rewrite Hc, N; reflexivity). cbn. lia.
+Qed.
+
+(* remaining resources of the view: allocatable minus the requests of the pods bound to the node minus the daemons
+   still to come (never negative) *)
+Lemma rget_rsub a b k : rget k (rsub a b) = if existsb (String.eqb k) (map fst a) then rget k a - rget k b else 0.
+Proof.
+  unfold rsub. induction a as [|[k' v] a IH]; simpl; [reflexivity|].
+  destruct (String.eqb_spec k k') as [->|Hn]; [reflexivity|exact IH].
+Qed.
+
+Lemma rget_clamp (d : rl) k : rget k (map (fun kv => (fst kv, if snd kv <? 0 then 0 else snd kv)) d) = Z.max 0 (rget k d).
+Proof.
+  induction d as [|[k' v] d IH]; simpl; [reflexivity|]. destruct (String.eqb k k'); [|exact IH].
+  destruct (Z.ltb_spec v 0); lia.
+Qed.
+
+Lemma rget_new_existing_remaining av d ds k : NoDup (map fst ds) ->
+  rget k (new_existing_remaining av d ds) =
+  if existsb (String.eqb k) (map fst av) then rget k av - Z.max 0 (rget k d - rget k ds) else 0.
+Proof.
+  intros Hn. unfold new_existing_remaining. rewrite rget_rsub, rget_clamp, rget_rsub_from by exact Hn. reflexivity.
+Qed.
+
+Lemma existsb_keys_rsub a b k : existsb (String.eqb k) (map fst (rsub a b)) = existsb (String.eqb k) (map fst a).
+Proof. unfold rsub. rewrite map_map. reflexivity. Qed.
+
+(* the link to C01: C01 shows that for every remaining instance type some compatible available offering holds the
+   summed requests plus the daemon overhead of its group ([resources_ok pods overhead alloc]).  If the in-flight node
+   reports at least that allocatable and the daemons expected on it weigh at most that overhead, the view's remaining
+   resources hold the pods. *)
+Lemma view_remaining_holds e ds s (pods : list pod) (alloc overhead : rl) :
+  sn_podreq s = [] -> sn_dsreq s = [] ->
+  Forall (fun p => nonneg (p_requests p)) pods ->
+  let dtotal := requests_for (filter (daemon_compat (sn_taints e s) (sn_labels s)) ds) in
+  (forall k, 0 <= rget k dtotal) ->
+  (forall k, rget k alloc <= rget k (sn_alloc s)) ->
+  (forall k, rget k dtotal <= rget k overhead) ->
+  resources_ok pods overhead alloc ->
+  forall k, rsum (map p_requests pods) k <= rget k (en_remaining (state_node_view e ds s)).
+Proof.
+  intros Hp Hd Hnn dtotal H0 Ha Ho Hr k. unfold state_node_view. cbn [en_remaining]. fold dtotal.
+  rewrite rget_new_existing_remaining by (rewrite Hd; constructor). rewrite Hd. cbn [rget]. rewrite Z.sub_0_r.
+  unfold sn_available. rewrite Hp, existsb_keys_rsub, rget_rsub. cbn [rget].
+  assert (Hs : 0 <= rsum (map p_requests pods) k).
+  { apply rsum_nonneg. clear -Hnn. induction Hnn; simpl; constructor; assumption. }
+  specialize (Hr k). specialize (Ha k). specialize (Ho k). specialize (H0 k).
+  destruct (existsb (String.eqb k) (map fst (sn_alloc s))) eqn:E.
+  - lia.
+  - assert (rget k (sn_alloc s) = 0).
+    { apply rget_notin. intros Hin. assert (X : existsb (String.eqb k) (map fst (sn_alloc s)) = true) by (apply existsb_exists; exists k; split; [exact Hin|apply String.eqb_refl]).
+      rewrite X in E. discriminate. }
+    lia.
+Qed.
+
+(* ================================================================== witnesses *)
+Definition w_it : itype := mkIT "c16" [] [([("cpu", 16000); ("pods", 10000)], [[]])].
+Definition w_cfg : cfg := mkCfg [] [w_it] true false false.
+Definition w_eph : ephem := mkEph [] [].
+Definition w_pod (name : string) (cpu : Z) (terms : list term) (tols : list toleration) : pod :=
+  mkPod name [] terms [] [] [] [] tols [] [("cpu", cpu); ("pods", 1000)].
+Definition w_tmpl (name : string) (ts : list taint) (r : reqs) : tment :=
+  mkTm name (mkNC ts r ["c16"] [] [mkDG ["c16"] [] []] []).
+Definition w_claim_node (name : string) (labels : list (string * string)) (ts : list taint) : snode :=
+  mkSN false true "" name [] labels [] ts [] [] [("cpu", 16000); ("pods", 10000)] false false false [] [] [].
+
+(* (1) OR-ed required terms are tried one at a time across ALL tiers: the pod below gets a new NodeClaim from the pool
+   (first term `team In [a]`) although the existing node, labelled team=b, satisfies its second term *)
+Definition w1_node : snode :=
+  mkSN true false "n1" "" [("team", "b")] [] [] [] [] [("cpu", 4000); ("pods", 10000)] [] false false false [] [] [].
+Definition w1_pod : pod := w_pod "default/p" 1000 [[("team", In, ["a"])]; [("team", In, ["b"])]] [].
+Definition w1_pass := pass w_cfg w_eph [] [] [w1_node] [w_tmpl "pool" [] [("team", new_req In None ["a"])]] [mkQ w1_pod 0 "u1" true].
+
+Lemma w1_new_although_node_admits :
+  map (fun st => (p_key (st_pod st), st_target st)) (snd (fst w1_pass)) = [("default/p", TNew "pool")] /\
+  existing_admissible_b (sn_labels w1_node) (sn_taints w_eph w1_node) (sn_alloc w1_node) [] [w1_pod] [] = true.
+Proof. vm_compute. split; reflexivity. Qed.
+
+(* (2) the re-run is first-fit over the existing nodes in name order: the big pod (created for the tainted claim
+   "b-claim") takes the untainted in-flight node "a-claim", the small pods that node was created for cannot go to
+   the tainted one and get a SECOND NodeClaim — although each in-flight node re-admits its own pods jointly *)
+Definition w2_taint : taint := mkTaint "dedicated" "x" "NoSchedule".
+Definition w2_big : pod := w_pod "default/big" 15800 [] [mkTol "" "Exists" "" ""].
+Definition w2_s1 : pod := w_pod "default/s1" 4600 [] [].
+Definition w2_s2 : pod := w_pod "default/s2" 1500 [] [].
+Definition w2_a : snode := w_claim_node "a-claim" [("karpenter.sh/nodepool", "plain")] [].
+Definition w2_b : snode := w_claim_node "b-claim" [("karpenter.sh/nodepool", "tainted")] [w2_taint].
+Definition w2_tmpls : list tment := [w_tmpl "tainted" [w2_taint] []; w_tmpl "plain" [] []].
+Definition w2_pass := pass w_cfg w_eph [] [] [w2_a; w2_b] w2_tmpls [mkQ w2_big 0 "u1" true; mkQ w2_s1 0 "u2" true; mkQ w2_s2 0 "u3" true].
+
+Lemma w2_rerun_opens_second_claim :
+  fst (ex_joint true false (state_node_view w_eph [] w2_a) [w2_s1; w2_s2]) = true /\
+  fst (ex_joint true false (state_node_view w_eph [] w2_b) [w2_big]) = true /\
+  map (fun st => (p_key (st_pod st), st_target st)) (snd (fst w2_pass)) =
+    [("default/big", TEx "a-claim"); ("default/s1", TNew "plain"); ("default/s2", TIn "default/s1")].
+Proof. vm_compute. repeat split; reflexivity. Qed.
+
+(* non-vacuity of the re-admission theorem: a claim of the pool "plain" that took s1 and s2, launched as c16 *)
+Definition w3_claim0 : nclaim := mkNC [] [] ["c16"] [] [mkDG ["c16"] [] []] [].
+Lemma w3_example :
+  let n := nc_exec [] [w_it] true w3_claim0 [(w2_s1, false); (w2_s2, false)] in
+  map p_key (nc_pods n) = ["default/s1"; "default/s2"] /\
+  map p_key (en_pods (ex_exec true (state_node_view w_eph [] w2_a) (nc_pods n))) = ["default/s1"; "default/s2"].
+Proof. vm_compute. split; reflexivity. Qed.
+
+(* non-vacuity of the Synced guard *)
+Lemma w4_sync :
+  let s := crun (mkP [] O) [CReconcile ["c1"; "c2"]; CReconcile ["c3"]; CUpdate "c1" "id1"; CReconcile ["c4"]; CUpdate "c2" "id2"; CReconcile []] in
+  p_passes s = 2%nat /\ map fst (p_map s) = ["c1"; "c2"].
+Proof. vm_compute. split; reflexivity. Qed.
+
+(* a node marked for deletion is skipped: the pod that fits it gets a new NodeClaim *)
+Definition w5_node : snode :=
+  mkSN true true "n1" "c1" [("karpenter.sh/registered", "true"); ("karpenter.sh/initialized", "true")] [] [] [] [] [("cpu", 4000); ("pods", 10000)] [] true false false [] [] [].
+Lemma w5_deleting :
+  map (fun st => st_target st) (snd (fst (pass w_cfg w_eph [] [] [w5_node] [w_tmpl "plain" [] []] [mkQ w2_s2 0 "u" true]))) = [TNew "plain"] /\
+  map (fun st => st_target st) (snd (fst (pass w_cfg w_eph [] [] [mkSN true true "n1" "c1" [("karpenter.sh/registered", "true"); ("karpenter.sh/initialized", "true")] [] [] [] [] [("cpu", 4000); ("pods", 10000)] [] false false false [] [] []] [w_tmpl "plain" [] []] [mkQ w2_s2 0 "u" true]))) = [TEx "n1"].
+Proof. vm_compute. split; reflexivity. Qed.
+
+(* ================================================================== the oracle's boolean parts are the specification *)
+Lemma none_fits_b_spec c exempt s p : none_fits_b c exempt s p = true <-> none_fits c exempt s p.
+Proof.
+  unfold none_fits_b, none_fits_ex, none_fits_in, none_fits. rewrite andb_true_iff, !forallb_forall. split.
+  - intros [H1 H2]. split; intros x Hx; [specialize (H1 x Hx)|specialize (H2 x Hx)]; apply negb_true_iff; assumption.
+  - intros [H1 H2]. split; intros x Hx; apply negb_true_iff; [apply H1|apply H2]; exact Hx.
+Qed.
+
+Lemma target_not_deleting_spec nodes t :
+  target_not_deleting nodes t = true <->
+  forall n, t = TEx n -> forall s, List.In s nodes -> sn_name s = n -> sn_marked_for_deletion s = false.
+Proof.
+  destruct t as [m|id|tn|]; simpl; try (split; [intros _ n H; discriminate|reflexivity]).
+  rewrite negb_true_iff. split.
+  - intros H n [= <-] s Hs Hn. destruct (sn_marked_for_deletion s) eqn:M; [|reflexivity]. exfalso.
+    assert (X : existsb (fun s0 => String.eqb (sn_name s0) m && sn_marked_for_deletion s0) nodes = true).
+    { apply existsb_exists. exists s. split; [exact Hs|]. rewrite Hn, String.eqb_refl, M. reflexivity. }
+    rewrite X in H. discriminate.
+  - intros H. destruct (existsb _ nodes) eqn:E; [|reflexivity]. apply existsb_exists in E as (s & Hs & E).
+    apply andb_prop in E as [E1 E2]. apply String.eqb_eq in E1. rewrite (H m eq_refl s Hs E1) in E2. discriminate.
+Qed.
+
+(* ================================================================== the label requirements of the view *)
+(* the labels the scheduler's view of a state node stands for: the node's (stage-dependent) labels plus the hostname *)
+Definition view_lab (s : snode) (k : string) : option string :=
+  if String.eqb k hostname_key then Some (sn_hostname s) else lget k (sn_labels s).
+
+Lemma has_in_single v mv : has (new_req In mv [v]) v = true.
+Proof. unfold has, new_req. cbn [compl vals gte lte dedup mem existsb]. rewrite String.eqb_refl. reflexivity. Qed.
+
+Lemma lget_nodup k v (l : list (string * string)) : NoDup (map fst l) -> List.In (k, v) l -> lget k l = Some v.
+Proof.
+  induction l as [|[k' v'] l IH]; intros Hn Hin; [destruct Hin|]. simpl in *. inversion Hn as [|? ? Hx Hl]; subst.
+  destruct Hin as [E|Hin].
+  - injection E as -> ->. rewrite String.eqb_refl. reflexivity.
+  - destruct (String.eqb_spec k k') as [->|Hne]; [|apply IH; assumption].
+    exfalso. apply Hx. apply in_map_iff. exists (k', v). split; [reflexivity|exact Hin].
+Qed.
+
+Lemma lget_in k v (l : list (string * string)) : lget k l = Some v -> List.In (k, v) l.
+Proof.
+  induction l as [|[k' v'] l IH]; simpl; [discriminate|]. destruct (String.eqb_spec k k') as [->|Hne].
+  - intros [= ->]. left. reflexivity.
+  - intros H. right. apply IH, H.
+Qed.
+
+Definition reqs_inv3 (lab : string -> option string) (acc : reqs) : Prop :=
+  wf_reqs acc /\ nodup_keys acc /\ (forall k x, find k acc = Some x -> label_ok lab k x).
+
+Lemma add1_reqs_inv3 lab acc k r : reqs_inv3 lab acc -> wf r -> label_ok lab k r -> reqs_inv3 lab (add1 acc (k, r)).
+Proof.
+  intros (Hw & Hn & Hl) Wr Lr.
+  destruct (add1_inv acc (k, r) Wr (conj Hw Hn)) as [Hw' Hn']. split; [exact Hw'|]. split; [exact Hn'|].
+  intros k0 x Hf. unfold add1 in Hf. destruct (find k acc) as [ex|] eqn:F.
+  - destruct (String.eqb_spec k0 k) as [->|Hne].
+    + rewrite find_set_same in Hf. injection Hf as <-. pose proof (Hl k ex F) as Lex. unfold label_ok in *.
+      destruct (lab k) as [v|]; [rewrite has_intersection_admits, Lr, Lex; reflexivity|apply sat_undefined_inter; assumption].
+    + rewrite find_set_other in Hf by exact Hne. apply (Hl k0 x Hf).
+  - destruct (String.eqb_spec k0 k) as [->|Hne].
+    + rewrite find_set_same in Hf. injection Hf as <-. exact Lr.
+    + rewrite find_set_other in Hf by exact Hne. apply (Hl k0 x Hf).
+Qed.
+
+Lemma add_reqs_inv3 lab rs : forall acc, reqs_inv3 lab acc -> (forall k q, List.In (k, q) rs -> wf q /\ label_ok lab k q) ->
+  reqs_inv3 lab (add acc rs).
+Proof.
+  unfold add. induction rs as [|[k r] rs IH]; intros acc Hacc Hrs; simpl; [exact Hacc|].
+  apply IH; [|intros k0 q Hin; apply Hrs; right; exact Hin].
+  destruct (Hrs k r (or_introl eq_refl)) as [Wr Lr]. apply add1_reqs_inv3; assumption.
+Qed.
+
+Lemma has_key_add1 m kr k : has_key (add1 m kr) k = has_key m k || String.eqb k (fst kr).
+Proof.
+  destruct kr as [k' r]. unfold add1, has_key. cbn [fst]. destruct (String.eqb_spec k k') as [->|Hne].
+  - destruct (find k' m); rewrite find_set_same; symmetry; apply orb_true_r.
+  - destruct (find k' m); rewrite find_set_other by exact Hne; rewrite orb_false_r; reflexivity.
+Qed.
+
+Lemma has_key_add rs : forall m k, has_key (add m rs) k = has_key m k || existsb (fun kr => String.eqb k (fst kr)) rs.
+Proof.
+  unfold add. induction rs as [|kr rs IH]; intros m k; simpl; [rewrite orb_false_r; reflexivity|].
+  rewrite IH, has_key_add1, orb_assoc. reflexivity.
+Qed.
+
+(* the view's requirements stand for exactly the node's labels (and hostname): the label premise of
+   rerun_places_on_inflight holds for the view the scheduler computes *)
+Lemma view_reqs_inv e ds s :
+  NoDup (map fst (sn_labels s)) ->
+  (lget hostname_key (sn_labels s) = None \/ lget hostname_key (sn_labels s) = Some (sn_hostname s)) ->
+  reqs_inv (view_lab s) (en_reqs (state_node_view e ds s)).
+Proof.
+  intros Hn Hh. unfold state_node_view. cbn [en_reqs]. set (labels := sn_labels s) in *. set (h := sn_hostname s) in *.
+  assert (Hent : forall k q, List.In (k, q) (map (fun kv => (fst kv, new_req In None [snd kv])) labels) -> wf q /\ label_ok (view_lab s) k q).
+  { intros k q Hin. apply in_map_iff in Hin as ([k0 v0] & E & Hin). cbn [fst snd] in E. injection E as <- <-.
+    split; [apply (wf_new_req In None [v0]); reflexivity|]. unfold label_ok, view_lab. fold labels. fold h.
+    destruct (String.eqb_spec k0 hostname_key) as [->|Hne].
+    - destruct Hh as [Hh|Hh]; [rewrite (lget_nodup _ _ _ Hn Hin) in Hh; discriminate|].
+      rewrite (lget_nodup _ _ _ Hn Hin) in Hh. injection Hh as ->. apply (has_in_single h None).
+    - rewrite (lget_nodup _ _ _ Hn Hin). apply (has_in_single v0 None). }
+  assert (H3 : reqs_inv3 (view_lab s) (add (sel_reqs labels) [(hostname_key, new_req In None [h])])).
+  { apply add_reqs_inv3.
+    - unfold sel_reqs. apply add_reqs_inv3; [|exact Hent]. split; [intros ? ? []|]. split; [constructor|intros k x; discriminate].
+    - intros k q [E|[]]. injection E as <- <-. split; [apply (wf_new_req In None [h]); reflexivity|].
+      unfold label_ok, view_lab. rewrite String.eqb_refl. fold h. apply (has_in_single h None). }
+  destruct H3 as (A & B & C). split; [exact A|]. split; [exact B|]. split; [exact C|].
+  intros k v L. rewrite has_key_add. unfold view_lab in L. fold labels in L. cbn [existsb fst].
+  destruct (String.eqb k hostname_key); [apply orb_true_r|].
+  unfold sel_reqs. rewrite has_key_add. apply orb_true_intro. left. apply orb_true_intro. right.
+  apply existsb_exists. exists (k, new_req In None [v]). split; [|apply String.eqb_refl].
+  apply in_map_iff. exists (k, v). split; [reflexivity|apply lget_in, L].
+Qed.
